@@ -467,7 +467,7 @@ let make_m1 (params : string list) : machine =
     | ("crash" | "fault") :: rest -> fmirror rest
     | [ "set"; k; v ] -> ignore (fdo (FSet (bytes_of_tok k, bytes_of_tok v)))
     | [ "rm"; k ] -> ignore (fdo (FRemove (bytes_of_tok k)))
-    | [ "save" ] | [ "wsave" ] -> ignore (fdo FSave)
+    | [ "save" ] | [ "wsave" ] | [ "ctab"; "save" ] -> ignore (fdo FSave)
     | [ "rollback" ] -> ignore (fdo FRollback)
     | [ "reopen" ] | [ "reopen"; _ ] -> ignore (fdo (FOpen (not !fast)))
     | [ "reopenat"; v; _ ] ->
@@ -639,6 +639,37 @@ let make_m1 (params : string list) : machine =
                  (match get_proof_sha wv tr (bytes_of_tok k) with
                   | Some p -> "pb:" ^ hex_of_bytes (marshal_commitment_proof p)
                   | None -> "err"))
+        | [ "ctab"; "save" ] ->
+            (* what a new tree object reports on the database image after the first j node-store
+               writes of this commit, for the j observed on the real database (Crash.recover on
+               Crash.image of Store.commit_node_ops: the functions the C05 theorems are about) *)
+            let impl = (match !current_expected with Some e -> e | None -> "") in
+            let nodeops = commit_node_ops_sha !st in
+            let exists_already = (match m_step !st (OVersionExists (match snd (m_step !st OWorkingVersion) with XInt z -> z | _ -> Z0)) with (_, XBool b) -> b | _ -> false) in
+            let nodeops = if exists_already then [] else nodeops in
+            let d = { nodes1 = phys_of !rk !st.forest; fastidx = []; label = None } in
+            let ivz = (if iv = "-" then Z0 else z_of_string iv) in
+            let rec nat_of_int n = if n <= 0 then O else S (nat_of_int (n - 1)) in
+            let js =
+              (if starts_with "ct[" impl then
+                 (try
+                    let e = String.index impl ']' in
+                    let body = String.sub impl 3 (e - 3) in
+                    List.map (fun ent -> int_of_string (List.hd (String.split_on_char ':' ent))) (String.split_on_char ';' body)
+                  with _ -> [])
+               else []) in
+            let show_rec = function
+              | REmpty _ -> "ok:0"
+              | ROk (latest, _, _, _) -> "ok:" ^ string_of_z latest
+              | RErr _ -> "err" in
+            let tab = List.map (fun j -> Printf.sprintf "%d:%s" j (show_rec (recover ivz (image d nodeops (nat_of_int j))))) js in
+            let s', x = m_step !st OSave in
+            st := s';
+            (match x with
+             | XErr -> "err"
+             | _ ->
+                 if starts_with "ct-nowrap;" impl then "ct-nowrap;" ^ show_out x
+                 else "ct[" ^ String.concat ";" tab ^ "];" ^ show_out x)
         | [ "wsave" ] ->
             (* the order of the physical writes of a commit: fast index / label first, then the new
                nodes in post order with the root last (Store.commit_ops, used by CrashFacts) *)
